@@ -3781,7 +3781,23 @@ type BinaryExpr struct {
 
 // String returns a string representation of the binary expression.
 func (e *BinaryExpr) String() string {
-	return fmt.Sprintf("%s %s %s", e.LHS.String(), e.Op.String(), e.RHS.String())
+	return fmt.Sprintf("%s %s %s", e.LHS.String(), e.Op.String(), rhsString(e.RHS))
+}
+
+// rhsString prints the right operand of a binary expression. A negated
+// operand (-x) is parsed as -1 * x without parentheses; printed in that form
+// on the right-hand side of an operator it would regroup when parsed again
+// (b / -a would become (b / -1) * a), so it is written back as -x.
+func rhsString(rhs Expr) string {
+	if b, ok := rhs.(*BinaryExpr); ok && b.Op == MUL {
+		if lit, ok := b.LHS.(*IntegerLiteral); ok && lit.Val == -1 {
+			switch b.RHS.(type) {
+			case *VarRef, *Call, *ParenExpr:
+				return "-" + b.RHS.String()
+			}
+		}
+	}
+	return rhs.String()
 }
 
 // BinaryExprName returns the name of a binary expression by concatenating
